@@ -50,6 +50,7 @@ CODES = {
     # reports, 24 AnySignedBy, 25 AllSignedBy; 30 image does not load, 31 NewSigner/Sign result, 32 signed bytes
     "C09": {1, 2, 3, 5, 9, 14},
     "C18": {11},
+    "C10": {1, 2, 3, 4, 10, 11, 20, 21, 22, 23, 24, 25},
     "C04": {20, 21, 22, 23},
     "C05": {20, 21, 22, 23},
     "C06": {20, 21, 22, 23, 30, 31, 32},
@@ -288,6 +289,10 @@ def crash_args(tier, seed, variant=""):
     return ["-seed", str(seed), "-n", "400", "-shards", "48", "-maxcap", "12", "-maxops", "24", "-bigevery", "40", "-thorough"]
 
 
+def hostile_args(tier, seed, variant=""):
+    return ["-seed", str(seed), "-n", "0"] + (["-thorough"] if tier != "quick" else [])
+
+
 def concurrent_args(tier, seed, variant=""):
     return ["-seed", str(seed), "-n", "10" if tier == "quick" else "150"]
 
@@ -308,6 +313,7 @@ def verify_args(mode, nq, nt):
 
 FAMILIES = {
     "C09": [("crash", crash_args)],
+    "C10": [("hostile", hostile_args), ("load", load_args), ("verify", verify_args("tamper", 24, 300))],
     "C18": [("concurrent", concurrent_args), ("hist", hist_small_args), ("verify", verify_args("signedby", 20, 200))],
     "C04": [("verify", verify_args("tamper", 60, 100000))],
     "C05": [("verify", verify_args("coverage", 80, 100000)), ("verify", verify_args("tamper", 30, 400))],
